@@ -65,6 +65,8 @@ def captured():
             "schedules": (0xB6, payload("responses/schedules.json", "EM_heating_and_water_heater_schedule")),
             "mixer": (0xB2, payload("responses/mixer_parameters.json", "1_mixer_detected")),
             "password": (0xBA, payload("responses/password.json", "EM_service_password_1234")),
+            "devavail": (0xB0, payload("responses/device_available.json", "EN300_device_available")),
+            "progver": (0xC0, payload("responses/program_version.json", "EN300_program_version")),
         }
     return _CAPTURED
 
